@@ -37,7 +37,7 @@ func kindsFor(n *CNode, hasArrayParent bool) []string {
 		}
 		k = append(k, "int+1", "int-1", "type=bstr0", "type=tstr", "type=null", "type=arr0", "type=map0", "type=true", "headinfl")
 	case 2:
-		k = append(k, "flipfirst", "fliplast", "flipmid", "xorall", "trunc1", "ext1", "empty", "type=null", "type=uint0", "type=tstr", "type=arr0", "headinfl", "lenclaim")
+		k = append(k, "flipfirst", "fliplast", "flipmid", "xorall", "trunc1", "trunc2", "half", "keep2", "ext1", "ext2", "empty", "type=null", "type=uint0", "type=tstr", "type=arr0", "headinfl", "lenclaim")
 	case 3:
 		k = append(k, "flipfirst", "trunc1", "ext1", "empty", "badutf8", "type=bstr", "type=null", "type=uint0", "headinfl", "lenclaim")
 	case 7:
@@ -191,6 +191,20 @@ func applyMutation(body []byte, path, kind string) []byte {
 	case kind == "ext1":
 		n.Emb = nil
 		n.Bytes = append(append([]byte(nil), n.Bytes...), 0)
+	case kind == "ext2":
+		n.Emb = nil
+		n.Bytes = append(append([]byte(nil), n.Bytes...), 0, 1)
+	case kind == "trunc2":
+		n.Emb = nil
+		if len(n.Bytes) > 1 {
+			n.Bytes = append([]byte(nil), n.Bytes[:len(n.Bytes)-2]...)
+		}
+	case kind == "keep2":
+		n.Emb = nil
+		n.Bytes = append([]byte(nil), n.Bytes[:min(2, len(n.Bytes))]...)
+	case kind == "half":
+		n.Emb = nil
+		n.Bytes = append([]byte(nil), n.Bytes[:len(n.Bytes)/2]...)
 	case kind == "droplast":
 		if n.Major == 5 && len(n.Kids) >= 2 {
 			n.Kids = n.Kids[:len(n.Kids)-2]
